@@ -5,10 +5,14 @@ input, is executable, and the payload store is right for it - with the registry 
 fresh allocation ids of the nodes the Processor created.
 -/
 import DafRel.Lemmas.ProcIter
+import DafRel.Lemmas.ProcBasics
 import DafRel.Lemmas.Metadata
 import DafRel.Lemmas.Build
+import DafRel.Lemmas.SqlRunSound
 
 namespace DafRel
+
+variable {sq0 : SqlState}
 
 /-- `reg'` agrees with `reg` on all ids below `n`. -/
 def RegExt (reg reg' : Nat → Option (List Row)) (n : Nat) : Prop := ∀ o, o < n → reg' o = reg o
@@ -58,48 +62,108 @@ theorem StoreOK_set {σ : Leaves} {reg : Nat → Option (List Row)} {s : ExecSta
     have hne : ¬ o = f := fun h => ho h.symm
     exact ⟨a, rs, by simp [regSet, hne, b], c⟩
 
-/-- The `transfer` hook between two iteration engines. -/
+/-- The `transfer` hook between two iteration engines (the source may contain processed Transfers out of a
+database: they hold payloads). -/
 theorem hookTransfer_iter (σ : Leaves) (reg : Nat → Option (List Row)) (t : Rel) (dest : Engine)
     (matAs : Option String) (s : ProcState) (hd : dest.kind = .iter)
-    (hk : t.engine.kind = .iter) (hio : t.IterOK) (hwf : t.WF) (htr : t.Truthful σ) (hkd : keyDetermined σ t = true)
-    (hreg : t.RegOK σ reg) (hs : StoreOK σ reg s.st) :
+    (hk : t.engine.kind = .iter) (hio : t.IterOKs s.st) (hwf : t.WF) (htr : t.Truthful σ)
+    (hkd : keyDetermined σ t = true) (hreg : t.RegOK σ reg) (hs : StoreOK σ reg s.st) :
     ∃ s', (hookTransfer σ t dest matAs) s = (.ok (.iter (.seq (sem σ t))), s') ∧ StoreOK σ reg s'.st ∧
-      s'.sq = s.sq ∧ s'.nextTemp = s.nextTemp := by
-  obtain ⟨it, st', h1, h2, h3⟩ : ∃ it st', exec σ t.engine t { s.st with log := [] } = .ok (it, st') ∧
-      it.rows σ = .ok (sem σ t) ∧ StoreOK σ reg st' := by
-    have := exec_correct σ reg t t.engine { s.st with log := [] } hio hwf htr hkd hreg (hs.log []) rfl
-    unfold ExecGood at this
-    obtain ⟨it, s', a, b, _, d⟩ := this
-    exact ⟨it, s', a, b, d⟩
+      s'.sq = s.sq ∧ s'.nextTemp = s.nextTemp ∧ PayMono s.st s'.st := by
+  obtain ⟨it, st', h1, h2, h3, h4⟩ : ∃ it st', exec σ t.engine t { s.st with log := [] } = .ok (it, st') ∧
+      it.rows σ = .ok (sem σ t) ∧ StoreOK σ reg st' ∧ PayMono s.st st' := by
+    have hm0 : PayMono s.st { s.st with log := [] } := PayMono.of_payloads_eq rfl
+    have := exec_correctM σ reg t t.engine { s.st with log := [] } (IterOKs.mono hm0 t hio) hwf htr hkd hreg
+      (hs.log []) rfl
+    unfold ExecGoodM at this
+    obtain ⟨it, s', a, b, _, d, e⟩ := this
+    exact ⟨it, s', a, b, d, hm0.trans e⟩
   unfold hookTransfer evalSingle wrapRows
   simp [bind, ExceptT.bind, ExceptT.mk, ExceptT.bindCont, StateT.bind, get, getThe, MonadStateOf.get,
     StateT.get, set, StateT.set, modify, modifyGet, MonadStateOf.modifyGet, StateT.modifyGet, MonadState.modifyGet,
     liftM, monadLift, MonadLift.monadLift, ExceptT.lift, pure,
     ExceptT.pure, StateT.pure, Functor.map, StateT.map, hk, hd, h1, h2]
-  exact ⟨_, rfl, h3.of_payloads_eq rfl, rfl, rfl⟩
+  exact ⟨_, rfl, h3.of_payloads_eq rfl, rfl, rfl, fun o ho => h4 o ho⟩
+
+theorem run_ok_inj {α β : Type} {a a' : α} {e : Type} {s s' : β}
+    (h : ((Except.ok a : Except e α), s) = (Except.ok a', s')) : a = a' ∧ s = s' := by
+  injection h with h1 h2
+  injection h1 with h1
+  exact ⟨h1, h2⟩
+
+/-- The `transfer` hook on a source that lives in a SQL engine (destination: an iteration engine): the source is
+conformed, compiled and run; whenever that succeeds, the payload handed back is the row sequence of the direct
+evaluation of the source. -/
+theorem hookTransfer_sql (σ : Leaves) (x : Rel) (dest : Engine) (matAs : Option String) (s : ProcState)
+    (hd : dest.kind = .iter) (hk : x.engine.kind = .sql) (hwf : x.WF) (htr : x.Truthful σ) (hraw : x.RawSql)
+    (hF : x.Faithful s.sq s.sq.tables σ) (h0 : s.sq.payload 0 = none)
+    (hready : ∀ c, conform s.store defaultFuel x = .ok c → (c.get x).structReady s.sq = true)
+    (p : AnyPayload) (s' : ProcState) (h : hookTransfer σ x dest matAs s = (.ok p, s')) :
+    p = .iter (.seq (sem σ x)) ∧ s'.st = s.st ∧ s'.sq = s.sq ∧ s'.nextTemp = s.nextTemp := by
+  have gI : Good (payInv s.sq s.sq.tables σ h0) σ x :=
+    raw_goodI σ x hwf htr hraw (atomsOK_of_faithful s.sq s.sq.tables σ h0 x hraw hF)
+  unfold hookTransfer evalSingle wrapRows at h
+  simp [bind, ExceptT.bind, ExceptT.mk, ExceptT.bindCont, StateT.bind, get, getThe, MonadStateOf.get,
+    StateT.get, set, StateT.set, modify, modifyGet, MonadStateOf.modifyGet, StateT.modifyGet, MonadState.modifyGet,
+    liftM, monadLift, MonadLift.monadLift, ExceptT.lift, pure,
+    ExceptT.pure, StateT.pure, Functor.map, StateT.map, hk, hd] at h
+  simp only [ProcState.store] at h hready
+  cases hc : conform (s.st.store ++ List.map (fun p => (p.fst, p.fst)) s.sq.payloads) defaultFuel x with
+  | error e =>
+    simp only [hc, throw, throwThe, MonadExceptOf.throw, ExceptT.mk, pure, StateT.pure] at h
+    injection h with h1 _; cases h1
+  | ok c =>
+    obtain ⟨gc, cok⟩ := (treeBuild_sound σ _ defaultFuel).conform x c gI hc
+    have hsr := hready c hc
+    have hfa := gc.faithful
+    simp only [hc] at h
+    cases hq : compileSelect s.sq defaultFuel (c.get x) 0 with
+    | error e =>
+      simp only [hq, throw, throwThe, MonadExceptOf.throw, ExceptT.mk, pure, StateT.pure] at h
+      injection h with h1 _; cases h1
+    | ok v =>
+      obtain ⟨q, c1⟩ := v
+      simp only [hq] at h
+      by_cases hdup : q.hasDup = true
+      · simp only [hdup, if_true, throw, throwThe, MonadExceptOf.throw, ExceptT.mk, pure, StateT.pure] at h
+        injection h with h1 _; cases h1
+      · by_cases hacc : q.accepts = false
+        · simp only [hdup, hacc, if_true, if_false, throw, throwThe, MonadExceptOf.throw, ExceptT.mk, pure,
+            StateT.pure] at h
+          injection h with h1 _; cases h1
+        · simp only [hdup, hacc, if_false, StateT.bind, StateT.map, StateT.set, ExceptT.bindCont, Functor.map,
+            pure, StateT.pure, bind] at h
+          have hrows : (Query.eval s.sq.tables q).rows = sem σ x := by
+            rw [(compile_sound σ s.sq defaultFuel).select (c.get x) 0 q c1 gc cok.ok.isSel
+              (ready_of_struct s.sq s.sq.tables σ _ hsr hfa) hq (by simpa using hdup)]
+            exact cok.sem_eq
+          obtain ⟨h1, h2⟩ := run_ok_inj h
+          subst h1; subst h2
+          exact ⟨by rw [hrows], rfl, rfl, rfl⟩
 
 /-- What is known of a tree the Processor handles, relative to a registry and a state. -/
-structure TreeInv (σ : Leaves) (reg : Nat → Option (List Row)) (x : Rel) (s : ProcState) : Prop where
-  iterOK : x.IterOK
+structure TreeInv (σ : Leaves) (reg : Nat → Option (List Row)) (sq0 : SqlState) (x : Rel) (s : ProcState) : Prop where
   wf : x.WF
   truthful : x.Truthful σ
   kd : keyDetermined σ x = true
   regOK : x.RegOK σ reg
   below : x.markersBelow s.nextTemp
   store : StoreOK σ reg s.st
-  sq : s.sq.payloads = []
+  sq : s.sq = sq0
+  free : x.sqFree sq0
+  fresh : ∀ o, s.nextTemp ≤ o → sq0.payload o = none
 
 /-- Re-applying the operation of an existing node to the processed target (`operation.apply(new_target)` inside one
 iteration engine). -/
 theorem reapply_iter (σ : Leaves) (reg : Nat → Option (List Row)) (st : Store) (op : UOp) (t x : Rel) (c : Cols)
     (s : ProcState) (r : Res)
-    (hio : (Rel.unary op t c).IterOK) (hwf : (Rel.unary op t c).WF) (hkd : keyDetermined σ (Rel.unary op t c) = true)
-    (X : TreeInv σ reg x s) (hsem : sem σ x = sem σ t) (hcols : ∀ u, u ∈ x.columns ↔ u ∈ t.columns)
-    (hk : x.engine.kind = .iter)
+    (hnid : op.isIdentity = false) (har : op.arityOk = true) (hwf : (Rel.unary op t c).WF)
+    (hkd : keyDetermined σ (Rel.unary op t c) = true)
+    (X : TreeInv σ reg sq0 x s) (hX : x.IterOKs s.st) (hsem : sem σ x = sem σ t)
+    (hcols : ∀ u, u ∈ x.columns ↔ u ∈ t.columns) (hk : x.engine.kind = .iter)
     (h : applyOp st defaultFuel (.u op) x {} = .ok r) :
-    TreeInv σ reg (r.get x) s ∧ sem σ (r.get x) = sem σ (Rel.unary op t c) ∧
+    TreeInv σ reg sq0 (r.get x) s ∧ (r.get x).IterOKs s.st ∧ sem σ (r.get x) = sem σ (Rel.unary op t c) ∧
       (∀ u, u ∈ (r.get x).columns ↔ u ∈ c) ∧ (r.get x).engine = x.engine := by
-  obtain ⟨hit, hnid, har⟩ := hio
   obtain ⟨hwt, hc, hop⟩ := hwf
   rw [defaultFuel_eq, applyOp_iter st 99998 op x hk] at h
   cases hbeg : op.beginApply x none with
@@ -129,22 +193,28 @@ theorem reapply_iter (σ : Leaves) (reg : Nat → Option (List Row)) (st : Store
           rw [hc] at this
           simpa [UOp.appliedColumns] using this
         · exact finishApply_kd σ x o' r X.kd (by simpa using hdd) h
-      refine ⟨⟨finishApply_iterOK x o' r X.iterOK ⟨hnid, har⟩ h, f.wf, f.truthful, hkd', ?_, ?_, X.store, X.sq⟩,
+      refine ⟨⟨f.wf, f.truthful, hkd', ?_, ?_, X.store, X.sq, ?_, X.fresh⟩, ?_,
         by rw [← hsemEq]; exact f.sem_eq, fun u => (f.cols u).trans (hcolsEq u), f.engine⟩
       · exact finishApply_pres (fun y => y.RegOK σ reg) (fun _ => True) (fun _ => True)
           (fun up t c hp => ⟨hp, trivial⟩) (fun op t c hp _ _ => hp) (fun _ _ _ _ _ _ => trivial) x o' r X.regOK trivial h
       · exact finishApply_pres (fun y => y.markersBelow s.nextTemp) (fun _ => True) (fun _ => True)
           (fun up t c hp => ⟨hp, trivial⟩) (fun op t c hp _ _ => hp) (fun _ _ _ _ _ _ => trivial) x o' r X.below trivial h
+      · exact finishApply_pres (fun y => y.sqFree sq0) (fun _ => True) (fun _ => True)
+          (fun up t c hp => ⟨hp, trivial⟩) (fun op t c hp _ _ => hp) (fun _ _ _ _ _ _ => trivial) x o' r X.free trivial h
+      · exact finishApply_pres (fun y => y.IterOKs s.st) UOp.execOK UOp.execOK
+          (fun up t c hp => by simp only [Rel.IterOKs] at hp; exact ⟨hp.1, hp.2⟩)
+          (fun op t c hp hq _ => by simp only [Rel.IterOKs]; exact ⟨hp, hq⟩)
+          simplify_execOK x o' r hX ⟨hnid, har⟩ h
     · subst h1
       rw [finishApply_identity] at h
       injection h with h; subst h
       have f := noop_sound σ op x X.wf X.truthful hnoop
-      exact ⟨X, by rw [← hsemEq]; exact f.sem_eq, fun u => (f.cols u).trans (hcolsEq u), rfl⟩
+      exact ⟨X, hX, by rw [← hsemEq]; exact f.sem_eq, fun u => (f.cols u).trans (hcolsEq u), rfl⟩
 
 theorem rechain_iter (σ : Leaves) (reg : Nat → Option (List Row)) (st : Store) (l r : Rel) (s : ProcState) (b : BRes)
-    (L : TreeInv σ reg l s) (R : TreeInv σ reg r s) (hk : l.engine.kind = .iter)
-    (h : binaryApply st defaultFuel .chain l r = .ok b) :
-    TreeInv σ reg (b.get l r) s ∧ sem σ (b.get l r) = sem σ l ++ sem σ r ∧
+    (L : TreeInv σ reg sq0 l s) (R : TreeInv σ reg sq0 r s) (hL : l.IterOKs s.st) (hR : r.IterOKs s.st)
+    (hk : l.engine.kind = .iter) (h : binaryApply st defaultFuel .chain l r = .ok b) :
+    TreeInv σ reg sq0 (b.get l r) s ∧ (b.get l r).IterOKs s.st ∧ sem σ (b.get l r) = sem σ l ++ sem σ r ∧
       (∀ u, u ∈ (b.get l r).columns ↔ u ∈ l.columns) ∧ (b.get l r).engine = l.engine := by
   have hfuel : defaultFuel = 99999 + 1 := rfl
   rw [hfuel, binaryApply] at h
@@ -157,54 +227,53 @@ theorem rechain_iter (σ : Leaves) (reg : Nat → Option (List Row)) (st : Store
     · simp [hc, bind, Except.bind, binaryFinishApply, hk] at h
       subst h
       have hceq := (Cols.seteq_iff _ _).mp hc
-      refine ⟨⟨⟨L.iterOK, R.iterOK, heq, trivial⟩, ⟨L.wf, R.wf, rfl, hceq⟩, ⟨L.truthful, R.truthful⟩, ?_,
-        ⟨L.regOK, R.regOK⟩, ⟨L.below, R.below⟩, L.store, L.sq⟩, ?_, ?_, ?_⟩
+      refine ⟨⟨⟨L.wf, R.wf, rfl, hceq⟩, ⟨L.truthful, R.truthful⟩, ?_,
+        ⟨L.regOK, R.regOK⟩, ⟨L.below, R.below⟩, L.store, L.sq, ⟨L.free, R.free⟩, L.fresh⟩,
+        ⟨hL, hR, heq, trivial⟩, ?_, ?_, ?_⟩
       · simp [BRes.get, keyDetermined, L.kd, R.kd]
       · simp [sem, BRes.get]
       · intro u; simp [BRes.get, Rel.columns]
       · simp [BRes.get, Rel.engine]
     · simp [hc, bind, Except.bind] at h
 
-theorem run_ok_inj {α β : Type} {a a' : α} {e : Type} {s s' : β}
-    (h : ((Except.ok a : Except e α), s) = (Except.ok a', s')) : a = a' ∧ s = s' := by
-  injection h with h1 h2
-  injection h1 with h1
-  exact ⟨h1, h2⟩
-
 theorem MultiIter.kind : (t : Rel) → t.MultiIter → t.engine.kind = .iter
-  | .leaf .., h => h
-  | .unary _ t _, h => MultiIter.kind t h
+  | .leaf .., h => h.1
+  | .unary _ t _, h => MultiIter.kind t h.1
   | .binary _ l _ _, h => MultiIter.kind l h.1
   | .mat _ _ t, h => h.1
-  | .transfer _ _ _, h => h.2
+  | .transfer _ _ _, h => h.1
   | .select .., h => by cases h
 
 /-- What processing achieves. -/
-structure ProcMultiOK (σ : Leaves) (reg : Nat → Option (List Row)) (t : Rel) (s : ProcState) (res : Res)
+structure ProcMultiOK (σ : Leaves) (reg : Nat → Option (List Row)) (sq0 : SqlState) (t : Rel) (s : ProcState) (res : Res)
     (s' : ProcState) : Prop where
-  inv : TreeInv σ reg (res.get t) s'
+  inv : TreeInv σ reg sq0 (res.get t) s'
+  exec : (res.get t).IterOKs s'.st
+  mono : PayMono s.st s'.st
   sem_eq : sem σ (res.get t) = sem σ t
   cols : ∀ u, u ∈ (res.get t).columns ↔ u ∈ t.columns
   engine : (res.get t).engine = t.engine
   temp : s.nextTemp ≤ s'.nextTemp
 
 theorem TreeInv.same {σ : Leaves} {reg reg' : Nat → Option (List Row)} {t : Rel} {s s' : ProcState}
-    (T : TreeInv σ reg t s) (he : RegExt reg reg' s.nextTemp) (hn : s.nextTemp ≤ s'.nextTemp)
-    (hs : StoreOK σ reg' s'.st) (hq : s'.sq.payloads = []) : TreeInv σ reg' t s' :=
-  ⟨T.iterOK, T.wf, T.truthful, T.kd, RegOK_ext σ he t T.regOK T.below, markersBelow_mono hn t T.below, hs, hq⟩
+    (T : TreeInv σ reg sq0 t s) (he : RegExt reg reg' s.nextTemp) (hn : s.nextTemp ≤ s'.nextTemp)
+    (hs : StoreOK σ reg' s'.st) (hq : s'.sq = sq0) : TreeInv σ reg' sq0 t s' :=
+  ⟨T.wf, T.truthful, T.kd, RegOK_ext σ he t T.regOK T.below, markersBelow_mono hn t T.below, hs, hq, T.free,
+    fun o ho => T.fresh o (Nat.le_trans hn ho)⟩
 
-theorem process_multi_iter (σ : Leaves) :
+
+theorem process_multi_iter (σ : Leaves) (h0 : sq0.payload 0 = none) :
     (t : Rel) → (fuel : Nat) → (matAs : Option String) → (s : ProcState) → (reg : Nat → Option (List Row)) →
-    t.MultiIter → TreeInv σ reg t s → t.size ≤ fuel →
+    t.MultiIter → t.SqlSrcOK σ sq0 → TreeInv σ reg sq0 t s → t.size ≤ fuel →
     ∀ res b s', (processRec σ fuel t matAs).run.run s = (.ok (res, b), s') →
-    ∃ reg', RegExt reg reg' s.nextTemp ∧ ProcMultiOK σ reg' t s res s'
-  | .leaf oid le cols nm mn mx pl ms, fuel, matAs, s, reg, hm, T, hf, res, b, s', h => by
+    ∃ reg', RegExt reg reg' s.nextTemp ∧ ProcMultiOK σ reg' sq0 t s res s'
+  | .leaf oid le cols nm mn mx pl ms, fuel, matAs, s, reg, hm, hsql, T, hf, res, b, s', h => by
     cases fuel with
     | zero => simp [Rel.size] at hf
     | succ n =>
-      have hpl : pl = true := T.iterOK
+      have hpl : pl = true := hm.2
       have hc : (s.payloadOf (Rel.leaf oid le cols nm mn mx pl ms)).isSome = true := by
-        rw [payloadOf_sq_nil s T.sq]; simp [hpl]
+        rw [payloadOf_free s (Rel.leaf oid le cols nm mn mx pl ms) (by rw [T.sq]; exact T.free)]; simp [hpl]
       unfold processRec at h
       simp [bind, ExceptT.bind, ExceptT.mk, ExceptT.bindCont, StateT.bind, get, getThe, MonadStateOf.get, StateT.get,
         liftM, monadLift, MonadLift.monadLift, ExceptT.lift, ExceptT.run, StateT.run, hc, pure, ExceptT.pure,
@@ -212,25 +281,26 @@ theorem process_multi_iter (σ : Leaves) :
       obtain ⟨h1, h2⟩ := run_ok_inj h
       injection h1 with h1 _
       subst h1; subst h2
-      exact ⟨reg, RegExt.refl _ _, T, rfl, fun _ => Iff.rfl, rfl, Nat.le_refl _⟩
-  | .select .., _, _, _, _, hm, _, _, _, _, _, _ => by cases hm
-  | .mat oid name target, fuel, matAs, s, reg, hm, T, hf, res, b, s', h => by
-    obtain ⟨hek, hp⟩ := hm
+      exact ⟨reg, RegExt.refl _ _, T, hpl, PayMono.refl _, rfl, fun _ => Iff.rfl, rfl, Nat.le_refl _⟩
+  | .select .., _, _, _, _, hm, _, _, _, _, _, _, _ => by cases hm
+  | .mat oid name target, fuel, matAs, s, reg, hm, hsql, T, hf, res, b, s', h => by
+    obtain ⟨hek, hp, hio⟩ := hm
     obtain ⟨s'', h', P⟩ := process_plain_iter σ reg target.engine hek (Rel.mat oid name target) fuel matAs s
-      hp T.iterOK T.wf T.truthful T.kd T.regOK T.store T.sq hf
+      hp hio T.wf T.truthful T.kd T.regOK T.store (by rw [T.sq]; exact T.free) hf
     rw [h'] at h
     obtain ⟨h1, h2⟩ := run_ok_inj h
     injection h1 with h1 _
     subst h1; subst h2
-    exact ⟨reg, RegExt.refl _ _, T.same (RegExt.refl _ _) (Nat.le_of_eq P.temp.symm) P.store P.sq, rfl,
-      fun _ => Iff.rfl, rfl, Nat.le_of_eq P.temp.symm⟩
-  | .unary op target c, fuel, matAs, s, reg, hm, T, hf, res, b, s', h => by
+    exact ⟨reg, RegExt.refl _ _, T.same (RegExt.refl _ _) (Nat.le_of_eq P.temp.symm) P.store (P.sq.trans T.sq),
+      IterOKs.of_iterOK _ (Rel.mat oid name target) hio, P.mono, rfl, fun _ => Iff.rfl, rfl, Nat.le_of_eq P.temp.symm⟩
+  | .unary op target c, fuel, matAs, s, reg, hm, hsql, T, hf, res, b, s', h => by
     cases fuel with
     | zero => simp [Rel.size] at hf
     | succ n =>
       have hkd' : keyDetermined σ target = true := by
         have := T.kd; simp only [keyDetermined, Bool.and_eq_true] at this; exact this.1
-      have Tt : TreeInv σ reg target s := ⟨T.iterOK.1, T.wf.1, T.truthful, hkd', T.regOK, T.below, T.store, T.sq⟩
+      obtain ⟨hmt, hnid, har⟩ := hm
+      have Tt : TreeInv σ reg sq0 target s := ⟨T.wf.1, T.truthful, hkd', T.regOK, T.below, T.store, T.sq, T.free, T.fresh⟩
       unfold processRec at h
       cases hr0 : (processRec σ n target none).run.run s with
       | mk r1 s1 =>
@@ -244,7 +314,7 @@ theorem process_multi_iter (σ : Leaves) :
           injection h with h1 _; cases h1
         | ok v =>
           obtain ⟨nt, fl⟩ := v
-          obtain ⟨reg1, hext, P⟩ := process_multi_iter σ target n none s reg hm Tt
+          obtain ⟨reg1, hext, P⟩ := process_multi_iter σ h0 target n none s reg hmt hsql Tt
             (by simp [Rel.size] at hf; omega) nt fl s1 hr0
           simp [bind, ExceptT.bind, ExceptT.mk, ExceptT.bindCont, StateT.bind, get, getThe, MonadStateOf.get,
             StateT.get, liftM, monadLift, MonadLift.monadLift, ExceptT.lift, ExceptT.run, StateT.run, pure,
@@ -255,12 +325,13 @@ theorem process_multi_iter (σ : Leaves) :
             obtain ⟨h1, h2⟩ := run_ok_inj h
             injection h1 with h1 _
             subst h1; subst h2
-            exact ⟨reg1, hext, T.same hext P.temp P.inv.store P.inv.sq, rfl, fun _ => Iff.rfl, rfl, P.temp⟩
+            exact ⟨reg1, hext, T.same hext P.temp P.inv.store P.inv.sq, ⟨P.exec, hnid, har⟩, P.mono, rfl, fun _ => Iff.rfl, rfl,
+              P.temp⟩
           | new t' =>
             have hk : t'.engine.kind = .iter := by
               have := P.engine
               simp only [Res.get] at this
-              rw [this]; exact MultiIter.kind target hm
+              rw [this]; exact MultiIter.kind target hmt
             cases ha : applyOp s1.store defaultFuel (.u op) t' {} with
             | error e =>
               simp only [StateT.bind, StateT.map, StateT.get, ExceptT.bindCont, Functor.map, ha, throw, throwThe,
@@ -272,15 +343,14 @@ theorem process_multi_iter (σ : Leaves) :
               obtain ⟨h1, h2⟩ := run_ok_inj h
               injection h1 with h1 _
               subst h1; subst h2
-              obtain ⟨I, hs, hc, he⟩ := reapply_iter σ reg1 s1.store op target t' c s1 r T.iterOK T.wf T.kd P.inv
-                P.sem_eq P.cols hk ha
-              exact ⟨reg1, hext, I, hs, fun u => hc u, he.trans P.engine, P.temp⟩
-  | .binary op l r c, fuel, matAs, s, reg, hm, T, hf, res, b, s', h => by
+              obtain ⟨I, hx, hs, hc, he⟩ := reapply_iter σ reg1 s1.store op target t' c s1 r hnid har T.wf T.kd P.inv
+                P.exec P.sem_eq P.cols hk ha
+              exact ⟨reg1, hext, I, hx, P.mono, hs, fun u => hc u, he.trans P.engine, P.temp⟩
+  | .binary op l r c, fuel, matAs, s, reg, hm, hsql, T, hf, res, b, s', h => by
     cases fuel with
     | zero => simp [Rel.size] at hf
     | succ n =>
-      obtain ⟨hml, hmr⟩ := hm
-      obtain ⟨hil, hir, heng, hop⟩ := T.iterOK
+      obtain ⟨hml, hmr, heng, hop⟩ := hm
       cases op with
       | join j => cases hop
       | ignoreOne bb => cases hop
@@ -288,7 +358,7 @@ theorem process_multi_iter (σ : Leaves) :
         have hkd := T.kd
         simp only [keyDetermined, Bool.and_eq_true] at hkd
         obtain ⟨hwl, hwr, hcc, hcols⟩ := T.wf
-        have Tl : TreeInv σ reg l s := ⟨hil, hwl, T.truthful.1, hkd.1, T.regOK.1, T.below.1, T.store, T.sq⟩
+        have Tl : TreeInv σ reg sq0 l s := ⟨hwl, T.truthful.1, hkd.1, T.regOK.1, T.below.1, T.store, T.sq, T.free.1, T.fresh⟩
         unfold processRec at h
         cases hr0 : (processRec σ n l none).run.run s with
         | mk r1 s1 =>
@@ -302,11 +372,11 @@ theorem process_multi_iter (σ : Leaves) :
             injection h with h1 _; cases h1
           | ok v =>
             obtain ⟨nl, lp⟩ := v
-            obtain ⟨reg1, hext1, P1⟩ := process_multi_iter σ l n none s reg hml Tl
+            obtain ⟨reg1, hext1, P1⟩ := process_multi_iter σ h0 l n none s reg hml hsql.1 Tl
               (by simp [Rel.size] at hf; omega) nl lp s1 hr0
-            have Tr : TreeInv σ reg1 r s1 :=
-              ⟨hir, hwr, T.truthful.2, hkd.2, RegOK_ext σ hext1 r T.regOK.2 T.below.2,
-                markersBelow_mono P1.temp r T.below.2, P1.inv.store, P1.inv.sq⟩
+            have Tr : TreeInv σ reg1 sq0 r s1 :=
+              ⟨hwr, T.truthful.2, hkd.2, RegOK_ext σ hext1 r T.regOK.2 T.below.2,
+                markersBelow_mono P1.temp r T.below.2, P1.inv.store, P1.inv.sq, T.free.2, P1.inv.fresh⟩
             cases hq0 : (processRec σ n r none).run.run s1 with
             | mk r2 s2 =>
               have hq := hq0
@@ -319,13 +389,15 @@ theorem process_multi_iter (σ : Leaves) :
                 injection h with h1 _; cases h1
               | ok w =>
                 obtain ⟨nr, rp⟩ := w
-                obtain ⟨reg2, hext2, P2⟩ := process_multi_iter σ r n none s1 reg1 hmr Tr
+                obtain ⟨reg2, hext2, P2⟩ := process_multi_iter σ h0 r n none s1 reg1 hmr hsql.2 Tr
                   (by simp [Rel.size] at hf; omega) nr rp s2 hq0
                 simp [bind, ExceptT.bind, ExceptT.mk, ExceptT.bindCont, StateT.bind, get, getThe, MonadStateOf.get,
                   StateT.get, liftM, monadLift, MonadLift.monadLift, ExceptT.lift, ExceptT.run, StateT.run, pure,
                   ExceptT.pure, StateT.pure, Functor.map, StateT.map, ProcState.payloadOf, hr, hq] at h
-                have L' : TreeInv σ reg2 (nl.get l) s2 := P1.inv.same hext2 P2.temp P2.inv.store P2.inv.sq
+                have L' : TreeInv σ reg2 sq0 (nl.get l) s2 := P1.inv.same hext2 P2.temp P2.inv.store P2.inv.sq
                 have R' := P2.inv
+                have L'x : (nl.get l).IterOKs s2.st := IterOKs.mono P2.mono _ P1.exec
+                have hmono : PayMono s.st s2.st := P1.mono.trans P2.mono
                 have hextAll : RegExt reg reg2 s.nextTemp := hext1.trans hext2 P1.temp
                 have htemp : s.nextTemp ≤ s2.nextTemp := Nat.le_trans P1.temp P2.temp
                 have hsemC : sem σ (Rel.binary .chain l r c) = sem σ l ++ sem σ r := by simp [sem]
@@ -333,25 +405,26 @@ theorem process_multi_iter (σ : Leaves) :
                   intro x hw ht hmx
                   have := (metadata_truthful σ x hw ht).upper 0 hmx
                   exact List.eq_nil_of_length_eq_zero (Nat.le_zero.mp this)
-                have finishNew : ∀ (X : Rel) (fl : Bool), TreeInv σ reg2 X s2 → sem σ X = sem σ l ++ sem σ r →
+                have finishNew : ∀ (X : Rel) (fl : Bool), TreeInv σ reg2 sq0 X s2 → X.IterOKs s2.st →
+                    sem σ X = sem σ l ++ sem σ r →
                     (∀ u, u ∈ X.columns ↔ u ∈ l.columns) → X.engine = l.engine →
                     (Except.ok (Res.new X, fl), s2) = ((Except.ok (res, b) : Except Err (Res × Bool)), s') →
-                    ∃ reg', RegExt reg reg' s.nextTemp ∧ ProcMultiOK σ reg' (Rel.binary .chain l r c) s res s' := by
-                  intro X fl IX hsX hcX heX hh
+                    ∃ reg', RegExt reg reg' s.nextTemp ∧ ProcMultiOK σ reg' sq0 (Rel.binary .chain l r c) s res s' := by
+                  intro X fl IX hxX hsX hcX heX hh
                   obtain ⟨h1, h2⟩ := run_ok_inj hh
                   injection h1 with h1 _
                   subst h1; subst h2
-                  exact ⟨reg2, hextAll, IX, by rw [hsemC]; exact hsX, fun u => by rw [hcc]; exact hcX u, heX, htemp⟩
+                  exact ⟨reg2, hextAll, IX, hxX, hmono, by rw [hsemC]; exact hsX, fun u => by rw [hcc]; exact hcX u, heX, htemp⟩
                 by_cases hl0 : (nl.get l).maxRows = some 0
                 · simp only [hl0, if_true, StateT.pure, pure] at h
-                  refine finishNew (nr.get r) rp R' ?_ ?_ ?_ h
+                  refine finishNew (nr.get r) rp R' P2.exec ?_ ?_ ?_ h
                   · rw [P2.sem_eq, ← P1.sem_eq, hempty _ L'.wf L'.truthful hl0]; rfl
                   · intro u; rw [P2.cols u]; exact (hcols u).symm
                   · rw [P2.engine]; exact heng.symm
                 · simp only [hl0, if_false] at h
                   by_cases hr0' : (nr.get r).maxRows = some 0
                   · simp only [hr0', if_true, StateT.pure, pure] at h
-                    refine finishNew (nl.get l) lp L' ?_ (fun u => P1.cols u) P1.engine h
+                    refine finishNew (nl.get l) lp L' L'x ?_ (fun u => P1.cols u) P1.engine h
                     rw [P1.sem_eq, ← P2.sem_eq, hempty _ R'.wf R'.truthful hr0']; simp
                   · simp only [hr0', if_false] at h
                     have hk : (nl.get l).engine.kind = .iter := by rw [P1.engine]; exact MultiIter.kind l hml
@@ -359,14 +432,14 @@ theorem process_multi_iter (σ : Leaves) :
                         | Except.error e => ((Except.error e : Except Err (Res × Bool)), s2)
                         | Except.ok bb => (Except.ok (Res.new (bb.get (nl.get l) (nr.get r)), false), s2)) =
                         (Except.ok (res, b), s') →
-                        ∃ reg', RegExt reg reg' s.nextTemp ∧ ProcMultiOK σ reg' (Rel.binary .chain l r c) s res s' := by
+                        ∃ reg', RegExt reg reg' s.nextTemp ∧ ProcMultiOK σ reg' sq0 (Rel.binary .chain l r c) s res s' := by
                       intro hh
                       cases hb : binaryApply s2.store defaultFuel BOp.chain (nl.get l) (nr.get r) with
                       | error e => simp only [hb] at hh; injection hh with h1 _; cases h1
                       | ok bb =>
                         simp only [hb] at hh
-                        obtain ⟨IX, hsX, hcX, heX⟩ := rechain_iter σ reg2 s2.store _ _ s2 bb L' R' hk hb
-                        refine finishNew _ false IX ?_ ?_ ?_ hh
+                        obtain ⟨IX, hxX, hsX, hcX, heX⟩ := rechain_iter σ reg2 s2.store _ _ s2 bb L' R' L'x P2.exec hk hb
+                        refine finishNew _ false IX hxX ?_ ?_ ?_ hh
                         · rw [hsX, P1.sem_eq, P2.sem_eq]
                         · intro u; rw [hcX u]; exact P1.cols u
                         · rw [heX]; exact P1.engine
@@ -378,8 +451,8 @@ theorem process_multi_iter (σ : Leaves) :
                         obtain ⟨h1, h2⟩ := run_ok_inj h
                         injection h1 with h1 _
                         subst h1; subst h2
-                        exact ⟨reg2, hextAll, T.same hextAll htemp P2.inv.store P2.inv.sq, rfl, fun _ => Iff.rfl, rfl,
-                          htemp⟩
+                        exact ⟨reg2, hextAll, T.same hextAll htemp P2.inv.store P2.inv.sq, ⟨L'x, P2.exec, heng, trivial⟩, hmono, rfl,
+                          fun _ => Iff.rfl, rfl, htemp⟩
                       | new y =>
                         apply hrebuild
                         simp only [StateT.bind, StateT.map, StateT.get, ExceptT.bindCont, Functor.map, throw,
@@ -392,35 +465,47 @@ theorem process_multi_iter (σ : Leaves) :
                         throwThe, MonadExceptOf.throw, ExceptT.mk, pure, StateT.pure, bind] at h
                       cases hb : binaryApply s2.store defaultFuel BOp.chain ((Res.new x).get l) (nr.get r) <;>
                         simp only [hb] at h ⊢ <;> exact h
-  | .transfer oid dest target, fuel, matAs, s, reg, hm, T, hf, res, b, s', h => by
+  | .transfer oid dest target, fuel, matAs, s, reg, hm, hsql, T, hf, res, b, s', h => by
     cases fuel with
     | zero => simp [Rel.size] at hf
     | succ n =>
-      obtain ⟨hmt, hdk⟩ := hm
-      have Tt : TreeInv σ reg target s := ⟨T.iterOK.1, T.wf, T.truthful, T.kd, T.regOK.2, T.below.2, T.store, T.sq⟩
-      unfold processRec at h
-      -- a statically trivial transfer: the engine's trivial payload on a new node, the target untouched
-      have htrivial : ∀ (ji : Bool) (rows : List Row), sem σ target = rows →
-          rows = (if ji then [Row.empty] else []) →
-          (Except.ok (Res.new (Rel.transfer s.nextTemp dest target), matAs.isSome),
-              ({ s with nextTemp := s.nextTemp + 1 } : ProcState).attach s.nextTemp
-                (.iter (.mapping [] (if ji then [Row.empty] else [])))) =
+      obtain ⟨hdk, hsrc⟩ := hm
+      -- a NEW Transfer node over the untouched target, holding a payload with the target's rows
+      have hnewnode : ∀ (s2 : ProcState) (it : Iterable), s2.st = s.st → s2.sq = s.sq → s2.nextTemp = s.nextTemp →
+          ItOK it → it.rows σ = .ok (sem σ target) →
+          (Except.ok (Res.new (Rel.transfer s2.nextTemp dest target), matAs.isSome),
+              ({ s2 with nextTemp := s2.nextTemp + 1 } : ProcState).attach s2.nextTemp (.iter it)) =
             ((Except.ok (res, b) : Except Err (Res × Bool)), s') →
-          ∃ reg', RegExt reg reg' s.nextTemp ∧ ProcMultiOK σ reg' (Rel.transfer oid dest target) s res s' := by
-        intro ji rows hsem hrows hh
+          ∃ reg', RegExt reg reg' s.nextTemp ∧ ProcMultiOK σ reg' sq0 (Rel.transfer oid dest target) s res s' := by
+        intro s2 it hst hsq hnt hi hrows hh
         obtain ⟨h1, h2⟩ := run_ok_inj hh
         injection h1 with h1 _
         subst h1; subst h2
-        refine ⟨regSet reg s.nextTemp (sem σ target), regSet_ext _ _ _, ?_, rfl, fun _ => Iff.rfl, rfl, ?_⟩
-        · refine ⟨T.iterOK, T.wf, T.truthful, T.kd, ⟨by simp [regSet], ?_⟩, ⟨?_, ?_⟩, ?_, T.sq⟩
-          · exact RegOK_ext σ (regSet_ext _ _ _) _ T.regOK.2 T.below.2
-          · show s.nextTemp < s.nextTemp + 1
+        refine ⟨regSet reg s2.nextTemp (sem σ target), by rw [hnt]; exact regSet_ext _ _ _, ?_, ?_, ?_, rfl,
+          fun _ => Iff.rfl, rfl, ?_⟩
+        · refine ⟨T.wf, T.truthful, T.kd, ⟨by simp [regSet], ?_⟩, ⟨?_, ?_⟩, ?_, ?_, ?_, ?_⟩
+          · exact RegOK_ext σ (by rw [hnt]; exact regSet_ext _ _ _) _ T.regOK.2 T.below.2
+          · show s2.nextTemp < s2.nextTemp + 1
             omega
-          · exact markersBelow_mono (by show s.nextTemp ≤ s.nextTemp + 1; omega) _ T.below.2
-          · refine StoreOK_set T.store s.nextTemp _ _ ?_ (by rw [hsem, hrows]; rfl)
-            cases ji <;> simp [ItOK]
-        · show s.nextTemp ≤ s.nextTemp + 1
+          · exact markersBelow_mono (by show s.nextTemp ≤ s2.nextTemp + 1; omega) _ T.below.2
+          · show StoreOK σ _ { s2.st with payloads := (s2.nextTemp, it) :: s2.st.payloads }
+            rw [hst]
+            exact StoreOK_set T.store s2.nextTemp it _ hi hrows
+          · show s2.sq = sq0
+            rw [hsq]; exact T.sq
+          · exact ⟨T.fresh _ (by rw [hnt]; exact Nat.le_refl _), T.free.2⟩
+          · intro o ho
+            exact T.fresh o (by have : s2.nextTemp + 1 ≤ o := ho; omega)
+        · refine Or.inl ?_
+          show (({ s2.st with payloads := (s2.nextTemp, it) :: s2.st.payloads } : ExecState).payload s2.nextTemp).isSome
+            = true
+          simp [ExecState.payload]
+        · show PayMono s.st { s2.st with payloads := (s2.nextTemp, it) :: s2.st.payloads }
+          rw [hst]
+          exact PayMono.cons s.st _ it s.st.evals
+        · show s.nextTemp ≤ s2.nextTemp + 1
           omega
+      unfold processRec at h
       cases hc : (s.payloadOf (Rel.transfer oid dest target)).isSome with
       | true =>
         simp [bind, ExceptT.bind, ExceptT.mk, ExceptT.bindCont, StateT.bind, get, getThe, MonadStateOf.get,
@@ -429,80 +514,126 @@ theorem process_multi_iter (σ : Leaves) :
         obtain ⟨h1, h2⟩ := run_ok_inj h
         injection h1 with h1 _
         subst h1; subst h2
-        exact ⟨reg, RegExt.refl _ _, T, rfl, fun _ => Iff.rfl, rfl, Nat.le_refl _⟩
+        have hpay : (s.st.payload oid).isSome = true := by
+          rw [payloadOf_free s (Rel.transfer oid dest target) (by rw [T.sq]; exact T.free.1)] at hc
+          cases hp : s.st.payload oid with
+          | none => simp [Rel.oid, hp] at hc
+          | some _ => rfl
+        exact ⟨reg, RegExt.refl _ _, T, Or.inl hpay, PayMono.refl _, rfl, fun _ => Iff.rfl, rfl, Nat.le_refl _⟩
       | false =>
        by_cases hji : (Rel.transfer oid dest target).isJoinIdentity = true
        · simp [bind, ExceptT.bind, ExceptT.mk, ExceptT.bindCont, StateT.bind, get, getThe, MonadStateOf.get,
            StateT.get, set, StateT.set, modify, modifyGet, MonadStateOf.modifyGet, StateT.modifyGet,
            MonadState.modifyGet, liftM, monadLift, MonadLift.monadLift, ExceptT.lift, ExceptT.run, StateT.run, pure,
            ExceptT.pure, StateT.pure, Functor.map, StateT.map, hc, hji, trivialPayload, hdk, freshTemp, Res.get] at h
-         exact htrivial true _ (joinIdentity_sound σ target T.wf T.truthful (by simpa [Rel.isJoinIdentity, Rel.columns, Rel.maxRows, Rel.minRows] using hji)) rfl h
+         exact hnewnode s _ rfl rfl rfl (by simp [ItOK]) (by
+           rw [joinIdentity_sound σ target T.wf T.truthful
+             (by simpa [Rel.isJoinIdentity, Rel.columns, Rel.maxRows, Rel.minRows] using hji)]; rfl) h
        · by_cases hmz : (Rel.transfer oid dest target).maxRows = some 0
          · simp [bind, ExceptT.bind, ExceptT.mk, ExceptT.bindCont, StateT.bind, get, getThe, MonadStateOf.get,
              StateT.get, set, StateT.set, modify, modifyGet, MonadStateOf.modifyGet, StateT.modifyGet,
              MonadState.modifyGet, liftM, monadLift, MonadLift.monadLift, ExceptT.lift, ExceptT.run, StateT.run, pure,
              ExceptT.pure, StateT.pure, Functor.map, StateT.map, hc, hji, hmz, trivialPayload, hdk, freshTemp,
              Res.get] at h
-           exact htrivial false _ (maxRows_zero_sound σ target T.wf T.truthful (by simpa [Rel.maxRows] using hmz)) rfl h
+           exact hnewnode s _ rfl rfl rfl (by simp [ItOK]) (by
+             rw [maxRows_zero_sound σ target T.wf T.truthful (by simpa [Rel.maxRows] using hmz)]; rfl) h
          · have hnji : (Rel.transfer oid dest target).isJoinIdentity = false := by simpa using hji
            have hnz : (Rel.transfer oid dest target).maxRows ≠ some 0 := hmz
-           exact (by
-        cases hr0 : (processRec σ n target none).run.run s with
-        | mk r1 s1 =>
-          have hr := hr0
-          simp only [ExceptT.run, StateT.run] at hr
-          cases r1 with
-          | error e =>
-            simp [bind, ExceptT.bind, ExceptT.mk, ExceptT.bindCont, StateT.bind, get, getThe, MonadStateOf.get,
-              StateT.get, liftM, monadLift, MonadLift.monadLift, ExceptT.lift, ExceptT.run, StateT.run, pure,
-              ExceptT.pure, StateT.pure, Functor.map, StateT.map, hc, hnji, hnz, hr] at h
-            injection h with h1 _; cases h1
-          | ok v =>
-            obtain ⟨nt, fl⟩ := v
-            obtain ⟨reg1, hext, P⟩ := process_multi_iter σ target n none s reg hmt Tt
-              (by simp [Rel.size] at hf; omega) nt fl s1 hr0
-            have hk : (nt.get target).engine.kind = .iter := by rw [P.engine]; exact T.iterOK.2
-            obtain ⟨s2, hh, h2, hsq, hnt⟩ := hookTransfer_iter σ reg1 (nt.get target) dest matAs s1 hdk hk
-              P.inv.iterOK P.inv.wf P.inv.truthful P.inv.kd P.inv.regOK P.inv.store
-            simp [bind, ExceptT.bind, ExceptT.mk, ExceptT.bindCont, StateT.bind, get, getThe, MonadStateOf.get,
-              StateT.get, liftM, monadLift, MonadLift.monadLift, ExceptT.lift, ExceptT.run, StateT.run, pure,
-              ExceptT.pure, StateT.pure, Functor.map, StateT.map, hc, hnji, hnz, hr, hh, freshTemp,
-              set, StateT.set, modify, modifyGet, MonadStateOf.modifyGet, StateT.modifyGet, MonadState.modifyGet] at h
-            obtain ⟨h1, h2'⟩ := run_ok_inj h
-            injection h1 with h1 _
-            subst h1; subst h2'
-            have hf1 : s2.nextTemp = s1.nextTemp := hnt
-            refine ⟨regSet reg1 s2.nextTemp (sem σ (nt.get target)),
-              hext.trans (regSet_ext _ _ _) (by rw [hf1]; exact P.temp), ?_, ?_, ?_, rfl, ?_⟩
-            · refine ⟨⟨P.inv.iterOK, hk⟩, P.inv.wf, P.inv.truthful, P.inv.kd, ⟨by simp [regSet], ?_⟩, ⟨?_, ?_⟩, ?_, ?_⟩
-              · exact RegOK_ext σ (regSet_ext _ _ _) _ P.inv.regOK (by rw [hf1]; exact P.inv.below)
-              · show s2.nextTemp < s2.nextTemp + 1
-                omega
-              · exact markersBelow_mono (by show s1.nextTemp ≤ s2.nextTemp + 1; omega) _ P.inv.below
-              · exact StoreOK_set h2 s2.nextTemp (.seq (sem σ (nt.get target))) _ trivial rfl
-              · show s2.sq.payloads = []
-                rw [hsq]; exact P.inv.sq
-            · show sem σ (nt.get target) = sem σ target
-              exact P.sem_eq
-            · intro u
-              show u ∈ (nt.get target).columns ↔ u ∈ target.columns
-              exact P.cols u
-            · show s.nextTemp ≤ s2.nextTemp + 1
-              have := P.temp
-              omega)
+           rcases hsrc with ⟨hki, hmt⟩ | ⟨hks, hraw, hleaf⟩
+           · -- the source lives in an iteration engine
+             have Tt : TreeInv σ reg sq0 target s :=
+               ⟨T.wf, T.truthful, T.kd, T.regOK.2, T.below.2, T.store, T.sq, T.free.2 hki, T.fresh⟩
+             cases hr0 : (processRec σ n target none).run.run s with
+             | mk r1 s1 =>
+               have hr := hr0
+               simp only [ExceptT.run, StateT.run] at hr
+               cases r1 with
+               | error e =>
+                 simp [bind, ExceptT.bind, ExceptT.mk, ExceptT.bindCont, StateT.bind, get, getThe, MonadStateOf.get,
+                   StateT.get, liftM, monadLift, MonadLift.monadLift, ExceptT.lift, ExceptT.run, StateT.run, pure,
+                   ExceptT.pure, StateT.pure, Functor.map, StateT.map, hc, hnji, hnz, hr] at h
+                 injection h with h1 _; cases h1
+               | ok v =>
+                 obtain ⟨nt, fl⟩ := v
+                 obtain ⟨reg1, hext, P⟩ := process_multi_iter σ h0 target n none s reg hmt (hsql.2 hki) Tt
+                   (by simp [Rel.size] at hf; omega) nt fl s1 hr0
+                 have hk : (nt.get target).engine.kind = .iter := by rw [P.engine]; exact hki
+                 obtain ⟨s2, hh, h2, hsq, hnt, hm2⟩ := hookTransfer_iter σ reg1 (nt.get target) dest matAs s1 hdk hk
+                   P.exec P.inv.wf P.inv.truthful P.inv.kd P.inv.regOK P.inv.store
+                 simp [bind, ExceptT.bind, ExceptT.mk, ExceptT.bindCont, StateT.bind, get, getThe, MonadStateOf.get,
+                   StateT.get, liftM, monadLift, MonadLift.monadLift, ExceptT.lift, ExceptT.run, StateT.run, pure,
+                   ExceptT.pure, StateT.pure, Functor.map, StateT.map, hc, hnji, hnz, hr, hh, freshTemp,
+                   set, StateT.set, modify, modifyGet, MonadStateOf.modifyGet, StateT.modifyGet,
+                   MonadState.modifyGet] at h
+                 obtain ⟨h1, h2'⟩ := run_ok_inj h
+                 injection h1 with h1 _
+                 subst h1; subst h2'
+                 have hf1 : s2.nextTemp = s1.nextTemp := hnt
+                 refine ⟨regSet reg1 s2.nextTemp (sem σ (nt.get target)),
+                   hext.trans (regSet_ext _ _ _) (by rw [hf1]; exact P.temp), ?_, ?_, ?_, ?_, ?_, rfl, ?_⟩
+                 · refine ⟨P.inv.wf, P.inv.truthful, P.inv.kd, ⟨by simp [regSet], ?_⟩, ⟨?_, ?_⟩, ?_, ?_, ?_, ?_⟩
+                   · exact RegOK_ext σ (regSet_ext _ _ _) _ P.inv.regOK (by rw [hf1]; exact P.inv.below)
+                   · show s2.nextTemp < s2.nextTemp + 1
+                     omega
+                   · exact markersBelow_mono (by show s1.nextTemp ≤ s2.nextTemp + 1; omega) _ P.inv.below
+                   · exact StoreOK_set h2 s2.nextTemp (.seq (sem σ (nt.get target))) _ trivial rfl
+                   · show s2.sq = sq0
+                     rw [hsq]; exact P.inv.sq
+                   · exact ⟨P.inv.fresh _ (by rw [hf1]; exact Nat.le_refl _), fun _ => P.inv.free⟩
+                   · intro o ho
+                     exact P.inv.fresh o (by have : s2.nextTemp + 1 ≤ o := ho; omega)
+                 · refine Or.inl ?_
+                   show (({ s2.st with payloads := (s2.nextTemp, _) :: s2.st.payloads } : ExecState).payload
+                     s2.nextTemp).isSome = true
+                   simp [ExecState.payload]
+                 · exact P.mono.trans (hm2.trans (PayMono.cons s2.st _ _ s2.st.evals))
+                 · show sem σ (nt.get target) = sem σ target
+                   exact P.sem_eq
+                 · intro u
+                   show u ∈ (nt.get target).columns ↔ u ∈ target.columns
+                   exact P.cols u
+                 · show s.nextTemp ≤ s2.nextTemp + 1
+                   have := P.temp
+                   omega
+           · -- the source lives in a SQL engine: it is conformed, compiled and run by the hook
+             obtain ⟨bb, hsame⟩ := processRec_settled σ s target n none (settled_of_sqlLeafTree s target hleaf)
+               (by simp [Rel.size] at hf; omega)
+             simp only [ExceptT.run, StateT.run] at hsame
+             obtain ⟨hFa, hRd⟩ := hsql.1 hks
+             cases hh0 : hookTransfer σ target dest matAs s with
+             | mk r2 s2 =>
+               cases r2 with
+               | error e =>
+                 simp [bind, ExceptT.bind, ExceptT.mk, ExceptT.bindCont, StateT.bind, get, getThe, MonadStateOf.get,
+                   StateT.get, liftM, monadLift, MonadLift.monadLift, ExceptT.lift, ExceptT.run, StateT.run, pure,
+                   ExceptT.pure, StateT.pure, Functor.map, StateT.map, hc, hnji, hnz, hsame, hh0, Res.get] at h
+                 injection h with h1 _; cases h1
+               | ok p =>
+                 obtain ⟨hp, hst, hsq, hnt⟩ := hookTransfer_sql σ target dest matAs s hdk hks T.wf T.truthful hraw
+                   (by rw [T.sq]; exact hFa) (by rw [T.sq]; exact h0)
+                   (fun c hcc => by rw [T.sq]; exact hRd _ c hcc) p s2 hh0
+                 subst hp
+                 simp [bind, ExceptT.bind, ExceptT.mk, ExceptT.bindCont, StateT.bind, get, getThe, MonadStateOf.get,
+                   StateT.get, liftM, monadLift, MonadLift.monadLift, ExceptT.lift, ExceptT.run, StateT.run, pure,
+                   ExceptT.pure, StateT.pure, Functor.map, StateT.map, hc, hnji, hnz, hsame, hh0, freshTemp, Res.get,
+                   set, StateT.set, modify, modifyGet, MonadStateOf.modifyGet, StateT.modifyGet,
+                   MonadState.modifyGet] at h
+                 exact hnewnode s2 (.seq (sem σ target)) hst hsq hnt trivial rfl h
 
-/-- **Process, then execute** (several iteration engines): whenever `Processor.process` succeeds on a tree of
-leaves, unary operations, chains, transfers between iteration engines and materializations of single-engine
-subtrees, the returned tree has the engine and columns of the input, and executing it yields exactly the rows of
-the direct evaluation of the input. -/
+/-- **Process, then execute**: whenever `Processor.process` succeeds on a tree of leaves, unary operations,
+chains, materializations of single-engine subtrees, transfers between iteration engines and transfers OUT OF A SQL
+ENGINE (the hook conforms, compiles and runs the source), the returned tree has the engine and the columns of the
+input, and executing it in its final engine yields exactly the rows of the direct evaluation of the input. -/
 theorem process_multi_then_execute (σ : Leaves) (reg : Nat → Option (List Row)) (t : Rel) (st : ExecState)
-    (hm : t.MultiIter) (hio : t.IterOK) (hwf : t.WF) (htr : t.Truthful σ) (hkd : keyDetermined σ t = true)
-    (hreg : t.RegOK σ reg) (hb : t.markersBelow tempBase) (hs : StoreOK σ reg st) (hf : t.size ≤ defaultFuel)
-    (res : Res) (ps : ProcState) (h : processTop σ st {} t = (.ok res, ps)) :
+    (sq : SqlState) (h0 : sq.payload 0 = none) (hm : t.MultiIter) (hsql : t.SqlSrcOK σ sq) (hwf : t.WF)
+    (htr : t.Truthful σ) (hkd : keyDetermined σ t = true) (hreg : t.RegOK σ reg) (hb : t.markersBelow tempBase)
+    (hs : StoreOK σ reg st) (hfree : t.sqFree sq) (hfresh : ∀ o, tempBase ≤ o → sq.payload o = none)
+    (hf : t.size ≤ defaultFuel)
+    (res : Res) (ps : ProcState) (h : processTop σ st sq t = (.ok res, ps)) :
     (res.get t).engine = t.engine ∧ (∀ u, u ∈ (res.get t).columns ↔ u ∈ t.columns) ∧
       ∃ it s', exec σ (res.get t).engine (res.get t) ps.st = .ok (it, s') ∧ it.rows σ = .ok (sem σ t) := by
   unfold processTop at h
-  cases hr : (processRec σ defaultFuel t none).run.run { st := st, sq := {} } with
+  cases hr : (processRec σ defaultFuel t none).run.run { st := st, sq := sq } with
   | mk r1 s1 =>
     simp only [ExceptT.run, StateT.run] at hr
     simp only [ExceptT.run, StateT.run, hr] at h
@@ -513,13 +644,13 @@ theorem process_multi_then_execute (σ : Leaves) (reg : Nat → Option (List Row
       simp only [Except.map] at h
       obtain ⟨h1, h2⟩ := run_ok_inj h
       subst h1; subst h2
-      obtain ⟨reg', _, P⟩ := process_multi_iter σ t defaultFuel none { st := st, sq := {} } reg hm
-        ⟨hio, hwf, htr, hkd, hreg, hb, hs, rfl⟩ hf res0 b s1 hr
+      obtain ⟨reg', _, P⟩ := process_multi_iter σ h0 t defaultFuel none { st := st, sq := sq } reg hm hsql
+        ⟨hwf, htr, hkd, hreg, hb, hs, rfl, hfree, hfresh⟩ hf res0 b s1 hr
       refine ⟨P.engine, P.cols, ?_⟩
-      have := exec_correct σ reg' (res0.get t) (res0.get t).engine s1.st P.inv.iterOK P.inv.wf P.inv.truthful
+      have := exec_correctM σ reg' (res0.get t) (res0.get t).engine s1.st P.exec P.inv.wf P.inv.truthful
         P.inv.kd P.inv.regOK P.inv.store rfl
-      unfold ExecGood at this
-      obtain ⟨it, s'', a, bb, _, _⟩ := this
+      unfold ExecGoodM at this
+      obtain ⟨it, s'', a, bb, _, _, _⟩ := this
       exact ⟨it, s'', a, by rw [bb, P.sem_eq]⟩
 
 end DafRel
